@@ -4,10 +4,10 @@
   `exchangeArch_spec` says, relative to the world *at the time of the call*; everybody else is
   untouched.
 -/
-import ArcheProofs.Lemmas.DInv
+import ArcheProofs.Lemmas.Frames
 
 namespace Arche.BatchLoop
-open Arche Arche.World Arche.Arr Arche.Storage Arche.IndexInv Arche.SameRows Arche.Graph Arche.Closed Arche.TInv Arche.KInv Arche.Move Arche.Remove Arche.Cov Arche.Cache Arche.SInv Arche.Batch Arche.BatchOps Arche.DInv
+open Arche Arche.World Arche.Arr Arche.Storage Arche.IndexInv Arche.SameRows Arche.Graph Arche.Closed Arche.TInv Arche.KInv Arche.Move Arche.Remove Arche.Cov Arche.Cache Arche.SInv Arche.Batch Arche.BatchOps Arche.DInv Arche.Frames
 open Arche.Props.C01 (At WInv)
 
 /-- the exchange is legal for entities with component set `m`: every removed component is
@@ -113,6 +113,8 @@ structure LoopPost (w w' : World) (add rem : List CompId) (rel : Option CompId) 
   pool : w'.pool = w.pool
   reg : w'.reg = w.reg
   dinv : DInv w → DInv w' ∧ w'.cfg = w.cfg
+  binv : (∀ id ∈ add, id < w.reg.count) → BInv w → BInv w'
+  sz : Sz w w'
   old : ∀ t, t < w.tables.size → w'.tableIds t = w.tableIds t ∧ w'.tableMask t = w.tableMask t ∧ w'.tableRel t = w.tableRel t
   entries : news.map (fun b => (b.old, b.stop - b.start)) = (lens.filter (fun p => p.2 != 0)).map (fun p => (some p.1, p.2))
   stop : ∀ b ∈ news, b.start ≤ b.stop
@@ -143,7 +145,7 @@ theorem exchangeBatchLoop_spec (add rem : List CompId) (rel : Option CompId) (ta
     rw [exchangeBatchLoop_nil] at h
     simp only [Prod.mk.injEq, Except.ok.injEq] at h
     obtain ⟨rfl, rfl⟩ := h
-    refine ⟨[], by simp, ⟨hK, hS, Nat.le_refl _, rfl, rfl, fun d => ⟨d, rfl⟩, fun _ _ => ⟨rfl, rfl, rfl⟩, rfl, ?_, ?_, ?_, fun _ _ => rfl⟩⟩
+    refine ⟨[], by simp, ⟨hK, hS, Nat.le_refl _, rfl, rfl, fun d => ⟨d, rfl⟩, fun _ b => b, Sz.refl w, fun _ _ => ⟨rfl, rfl, rfl⟩, rfl, ?_, ?_, ?_, fun _ _ => rfl⟩⟩
     · intro b hb; cases hb
     · intro p hp; cases hp
     · intro id l _ hl; exact ⟨hl, rfl, rfl⟩
@@ -161,7 +163,7 @@ theorem exchangeBatchLoop_spec (add rem : List CompId) (rel : Option CompId) (ta
       rw [exchangeBatchLoop_zero] at h
       have hL' : LensOK w add rem rest := ⟨hLrest_nodup, fun p hp hnz => hL.ok p (List.mem_cons_of_mem _ hp) hnz⟩
       obtain ⟨news, hbs, hP⟩ := ih w acc w' bs hK hS hL' h
-      refine ⟨news, hbs, ⟨hP.kinv, hP.sinv, hP.tsize, hP.pool, hP.reg, hP.dinv, hP.old, ?_, hP.stop, ?_, ?_, ?_⟩⟩
+      refine ⟨news, hbs, ⟨hP.kinv, hP.sinv, hP.tsize, hP.pool, hP.reg, hP.dinv, hP.binv, hP.sz, hP.old, ?_, hP.stop, ?_, ?_, ?_⟩⟩
       · rw [hP.entries]; simp
       · intro p hp hnz i hi
         rcases List.mem_cons.1 hp with rfl | hp
@@ -183,6 +185,8 @@ theorem exchangeBatchLoop_spec (add rem : List CompId) (rel : Option CompId) (ta
         obtain ⟨mask, tgt, hm, htg, k1, s1, hts1, hp1, hr1, hblt, hbne, hbo, hbstop, hbmask, hbtarget, hmoved, hothers, hold, hsrcrows, hrows, htargets, hlocs⟩ :=
           exchangeArch_spec w hK hS t htlt add rem rel target hne b hA _ rfl
         have hdinv1 := fun d => dinv_exchangeArch w d hK.node t _ htlt add rem rel target b hA
+        have hsz1 := sz_exchangeArch w t _ add rem rel target b hA
+        have hbinv1 := fun hadd bi => binv_exchangeArch w bi hK.node t _ htlt add rem rel target hadd b hA
         generalize hw1 : (w.exchangeArch t (w.tableOf t).rows.size add rem rel target).1 = w1 at *
         -- the remaining entries are untouched
         have hrest : ∀ p ∈ rest, p.2 ≠ 0 → p.1 < w.tables.size ∧ p.1 ≠ t ∧ p.1 ≠ b.tbl ∧ (w1.tableOf p.1).rows = (w.tableOf p.1).rows := by
@@ -213,11 +217,14 @@ theorem exchangeBatchLoop_spec (add rem : List CompId) (rel : Option CompId) (ta
           rw [hje, h2] at h1
           simp only [Option.some.injEq, Loc.mk.injEq] at h1
           exact htnot p hp h1.1.symm
-        refine ⟨b :: news1, by rw [hbs]; simp, ⟨hP.kinv, hP.sinv, Nat.le_trans hts1 hP.tsize, by rw [hP.pool, hp1], by rw [hP.reg, hr1], ?_, ?_, ?_, ?_, ?_, ?_, ?_⟩⟩
+        refine ⟨b :: news1, by rw [hbs]; simp, ⟨hP.kinv, hP.sinv, Nat.le_trans hts1 hP.tsize, by rw [hP.pool, hp1], by rw [hP.reg, hr1], ?_, ?_, ?_, ?_, ?_, ?_, ?_, ?_, ?_⟩⟩
         · intro d
           obtain ⟨d1, c1⟩ := hdinv1 d
           obtain ⟨d2, c2⟩ := hP.dinv d1
           exact ⟨d2, c2.trans c1⟩
+        · intro hadd bi
+          exact hP.binv (by rw [hr1]; exact hadd) (hbinv1 hadd bi).1
+        · exact Sz.trans hsz1 hP.sz
         · intro t' ht'
           obtain ⟨a, b', c⟩ := hP.old t' (Nat.lt_of_lt_of_le ht' hts1)
           obtain ⟨a', b'', c'⟩ := hold t' ht'
